@@ -130,9 +130,16 @@ def make_tagged(pool, shape, offset):
     return pool[tags].reshape(tuple(shape) + (pool.shape[1],)).clone(), tags
 
 
+TAGMOD = None
+
+
 def elem_tagged(shape, d, inp, dtype=torch.float64):
     """element-tagged tensor: value = inp * 100000 + flat element index"""
     n = numel(shape) * d
+    if TAGMOD is not None:         # narrow dtypes (int8, bool, half, …): small exactly representable tags, distinct within 97 elements
+        v = (torch.arange(n, dtype=torch.float64) * 5 + inp * 37) % TAGMOD
+        v = (v % 3 == 0) if dtype == torch.bool else v
+        return v.reshape(tuple(shape) + (d,)).to(dtype)
     return (torch.arange(n, dtype=torch.float64) + inp * 100000).reshape(tuple(shape) + (d,)).to(dtype)
 
 
